@@ -375,9 +375,7 @@ def verif_call(eng, st, fr, ins, name, args):
             st.covers[ident] = [tuple(st.pc)]
         return None
     if name == 'verif_merge':
-        st.status = 'parked'
-        st.park_key = (id(ins), len(st.frames))
-        return None
+        return None      # joins are found automatically (immediate post-dominators); kept as a no-op marker
     if name == 'verif_mark':
         if eng.mark_hook is not None:
             eng.mark_hook(eng, st, args[0], args[1])
